@@ -189,7 +189,9 @@ Record rfield := { rf_name : option ident; rf_ty : ty; rf_tid : N; rf_attrs : li
 Record rfields := { rfk : fkind; rfl : list rfield }.
 Record rvariant := { rv_attrs : list raw_attr; rv_ident : ident; rv_fields : rfields }.
 Inductive rdata := RStruct (fs : rfields) | REnum (vs : list rvariant) | RUnion (fs : rfields).
-Record ritem := { ri_attrs : list raw_attr; ri_ident : ident; ri_params : list ident; ri_data : rdata }.
+(** [ri_where]: the predicates of the type's OWN where clause (opaque ids, like the [bound(...)] predicates) *)
+Record ritem := { ri_attrs : list raw_attr; ri_ident : ident; ri_params : list ident; ri_where : list N;
+                  ri_data : rdata }.
 
 (** the Display-like derives never look at field attributes *)
 Definition plain_field (f : rfield) : field :=
@@ -409,4 +411,35 @@ Definition item_frame (it : ritem) : frame :=
   | REnum [] => FrEmptyEnum
   | REnum vs => FrEnum (map (fun v => variant_matcher (rv_ident v) (plain_fields (rv_fields v))) vs)
   | RUnion _ => FrUnion
+  end.
+
+(** ** The where clause of the generated impl ([display.rs:62-69], [debug.rs:53-60]):
+    [where_clause.cloned().unwrap_or_else(|| parse_quote! { where })] extended by the bounds - the type's own
+    predicates first (an empty clause when it has none), then every inferred bound and [bound(...)] predicate *)
+Definition impl_where (own : list N) (bounds : list bound) : list bound := map BUser own ++ bounds.
+
+Definition d_where_of (it : ritem) (r : result (list (body * list bound) * list bound)) : list bound :=
+  match r with
+  | ROk (_, bs) => impl_where (ri_where it) bs
+  | RErr _ => []
+  end.
+
+(** Debug: the bounds of the struct, or of every variant in order *)
+Definition g_where_of (it : ritem) (r : result (list (gbody * list bound))) : list bound :=
+  match r with
+  | ROk arms => impl_where (ri_where it) (flat_map snd arms)
+  | RErr _ => []
+  end.
+
+Definition d_item_where (cc : CharClass) (to_case : casing -> str -> str) (tr : trait) (it : ritem)
+  : result (list bound) :=
+  match d_expand_item cc to_case tr it with
+  | ROk (arms, bs) => ROk (impl_where (ri_where it) bs)
+  | RErr e => RErr e
+  end.
+
+Definition g_item_where (cc : CharClass) (it : ritem) : result (list bound) :=
+  match g_expand_item cc it with
+  | ROk arms => ROk (impl_where (ri_where it) (flat_map snd arms))
+  | RErr e => RErr e
   end.
